@@ -34,12 +34,12 @@ int main(void)
 			char *a = tok[i], *b = strchr(a, ':'), *c;
 			unsigned char *in, *out;
 			long n;
-			unsigned long mode, room;
+			long mode; unsigned long room;
 			sqfs_u32 in_read = 0, out_written = 0;
 			int ret;
 			if (!b || !(c = strchr(b + 1, ':'))) { fputs("bad-op", stdout); break; }
 			*b = 0; *c = 0;
-			mode = strtoul(a, NULL, 10); room = strtoul(b + 1, NULL, 10);
+			mode = strtol(a, NULL, 10); room = strtoul(b + 1, NULL, 10);
 			n = hex_decode_tok(c + 1, &in, 0);
 			if (n < 0) { fputs("bad-op", stdout); break; }
 			out = malloc(room ? room : 1);
